@@ -76,7 +76,8 @@ REGISTRY = {
         "every generated case runs in a child process (logging init is process-global); custom and file appenders only"]},
     "C20": {"engines": [eng("enc_roller", "vh_logging")], "assumptions": SEQ_ASSUME + [
         "the roller is driven through the cfg-gated accessors with a scripted forward-moving clock over a private directory"]},
-    "C07": {"engines": [eng("spmc_stress", "vh_channels", budget_q=25, budget_t=300), asan("spmc_stress"), miri("spmc_stress", budget_t=240)],
+    "C07": {"engines": [eng("spmc_stress", "vh_channels", budget_q=22, budget_t=300), stepper(budget_q=5, budget_t=60),
+                        asan("spmc_stress"), miri("spmc_stress", budget_t=240)],
             "assumptions": COMMON_ASSUME + SAN_ASSUME + [
         "a clone's start position is exact because the cloning thread is the only user of the parent handle"]},
     "C11": {"engines": [eng("cache_hist", "vh_cache", budget_q=20, budget_t=180)], "assumptions": COMMON_ASSUME},
